@@ -165,8 +165,10 @@ def run(ctx):
                         freqs[i_] += 1
                         break
                 else:
-                    failures.append(u)
-            return failures, freqs
+                    if u not in failures:
+                        failures.append(u)
+            # (the documented protocol: an Examples object holding the distinct failing strings)
+            return rx.Examples(failures), freqs
         case = {'form': 'check function', 'examples': repr(strings)[:1500], 'opts': opts}
         ctx.count(repr(case), True)
         ctx.bump('form.check-function')
